@@ -1,7 +1,7 @@
 SPECIFICATION ESpec
 CONSTANTS
   Subj = {1,2}
-  Pred = {3}
+  Pred = {2}
   Obj = {1,2}
   Named = {7,8}
   MaxQuads = 3
